@@ -22,6 +22,7 @@ package entrypoint
 
 import (
 	"errors"
+	"fmt"
 
 	errorsmod "cosmossdk.io/errors"
 	sdk "github.com/cosmos/cosmos-sdk/types"
@@ -127,9 +128,19 @@ func (i IBCMiddleware) OnRecvPacket(
 }
 
 func newErrorAcknowledgement(err error) channeltypes.Acknowledgement {
+	// NOTE: the acknowledgement is committed to the state, hence it must be the same on every
+	// node. The text of an error is not guaranteed to be deterministic (e.g. the JSON codec
+	// reports an arbitrary one of several unknown fields), so only the registered codespace and
+	// code of the error are included, as ibc-go does for its own error acknowledgements.
+	codespace, code, _ := errorsmod.ABCIInfo(err, false)
+
 	return channeltypes.Acknowledgement{
 		Response: &channeltypes.Acknowledgement_Error{
-			Error: errorsmod.Wrap(err, "orbiter-middleware error").Error(),
+			Error: fmt.Sprintf(
+				"orbiter-middleware error: codespace %s code %d",
+				codespace,
+				code,
+			),
 		},
 	}
 }
